@@ -1,30 +1,21 @@
-(* Finding F5 (C04/C06): the sparse solver reports "division by 0" for a gate whose
-   denominator vanishes although the gate is satisfiable (DivUnchecked(0,0): 0*x = 0).
-   The model is faithful to the code, so the failure clause of C06 is refuted for the
-   EDivZero error class, by computation over F_47. *)
+(* Finding F5 (C04/C06), fixed in the repository ("fix: sparse solver: zero coefficient of the
+   unsolved wire"): before the repair the sparse solver reported "division by 0" for a gate whose
+   denominator vanishes although the gate is satisfiable (DivUnchecked(0,0): 0*x = 0).  The model
+   follows the repaired code; the former counterexample now solves, by computation over F_47. *)
 From Coq Require Import ZArith List Bool.
 From GnarkV Require Import Base.Res Base.Zp Base.F47 CS.Solver.
 Import ListNotations.
 Local Open Scope Z_scope.
 
-
 Definition step47 := step Z 0 1 (addp p47) (mulp p47) (subp p47) (oppp p47) (divp p47) (invp p47) Z.eq_dec.
-Definition holds47 := holds Z 0 1 (addp p47) (mulp p47) (oppp p47).
 
 (* DivUnchecked(a, b) in the sparse builder: gate  1*(res*b) + (-1)*a = 0, res unsolved *)
 Definition f5_gate : instr Z := ISparse Z 0%nat 2%nat 0%nat 1%nat 0 0 46 1 0 false.
 Definition f5_vals : vals Z := init_from Z 0%nat [0; 0].      (* b = 0, a = 0 *)
-Definition f5_completion : vals Z := set Z f5_vals 2%nat 0.
 
-Lemma f5_extends : extends Z f5_vals f5_completion.
-Proof.
-  intros x y. unfold f5_completion, set. destruct x as [|[|[|x]]]; cbn; try discriminate; auto.
-Qed.
-
-Theorem sparse_divzero_not_violated_refuted :
-  exists v ins v', step47 (fun _ _ _ => None) 0%nat v ins = Err EDivZero 0%nat /\
-                   extends Z v v' /\ holds47 v' ins.
-Proof.
-  exists f5_vals, f5_gate, f5_completion. split; [vm_compute; reflexivity|]. split; [exact f5_extends|].
-  cbn. unfold holds_sparse, uses, sparse_eq. cbn. repeat split; intros; try discriminate; try congruence.
-Qed.
+Example f5_divunchecked_0_0_solves :
+  match step47 (fun _ _ _ => None) 0%nat f5_vals f5_gate with
+  | Ok v => v 2%nat = Some 0
+  | _ => False
+  end.
+Proof. vm_compute. reflexivity. Qed.
